@@ -151,3 +151,4 @@ def run(rep, tier, seed, replay):
     _run(rep, tier, seed, replay)
     if not replay:
         genproof.clock_obligation(rep, "C09_clock.v", "the line parser (pkg/line) asks the clock something, while line_to_events is a function of the line's bytes and the flag set", ('pkg/line.',))
+        genproof.digest_obligation(rep, "tag keys or lines are memoised under a digest")
